@@ -59,6 +59,11 @@ pub fn run(args: &Args, r: &mut Report) {
             case.shape.push(format!("failkey:{}", if k.starts_with('{') { "app" } else { &k }));
             case.fault.fail_keys.push(k);
         }
+        // a metrics sink that refuses every report (the reporter's contract allows an error)
+        if rng.chance(1, 8) {
+            case.script.metrics_fail = true;
+            case.shape.push("metrics-fail".into());
+        }
         // a device whose clock is (still) before 1970, possibly crossing the epoch during the history
         if rng.chance(1, 8) {
             let t = -(rng.range(1, 20_000) as i128) * 1_000_000_000 - rng.range(0, 999_999_999) as i128;
